@@ -78,6 +78,11 @@ type c11Inst struct {
 	lastNT bool
 	reop   int
 	rend   int
+	// after render-as-template: the template's base document and engine, with the definitions the base had
+	// at that moment; later calls on the rendered document must leave them as they were
+	base     *document.Document
+	baseDefs map[string]c11Def
+	eng      *document.TemplateEngine
 }
 
 func (i *c11Inst) Enabled(op int) bool {
@@ -159,6 +164,11 @@ func (i *c11Inst) Apply(op int) (string, []rep.Violation) {
 				viol = append(viol, rep.Violation{Sig: "template-render-failed", Clause: "render", What: fmt.Sprint(e)})
 				return
 			}
+			i.base, i.eng = i.doc, eng
+			i.baseDefs = map[string]c11Def{}
+			for k, v := range i.defs {
+				i.baseDefs[k] = v
+			}
 			i.doc = d
 			i.rend++
 			i.lastNT = true
@@ -195,6 +205,20 @@ func (i *c11Inst) Key() string {
 			}
 		}
 	}
+	if i.base != nil {
+		refs += "|base:"
+		for _, e := range i.base.Body.Elements {
+			if sp, ok := e.(*document.SectionProperties); ok {
+				for _, r := range sp.HeaderReferences {
+					refs += "h:" + r.Type + ":" + r.ID + ","
+				}
+				for _, r := range sp.FooterReferences {
+					refs += "f:" + r.Type + ":" + r.ID + ","
+				}
+			}
+		}
+		refs += rep.Hash(i.base.VerifRelDump())
+	}
 	return strings.Join(ks, ";") + "|" + refs + "|" + i.doc.VerifRelDump() + fmt.Sprintf("|r%d t%d n%d", i.reop, i.rend, len(i.doc.Body.Elements))
 }
 
@@ -204,7 +228,26 @@ func (i *c11Inst) Deep() []rep.Violation {
 	if errS != "" {
 		return []rep.Violation{{Sig: "save-failed", Clause: "save", What: errS}}
 	}
-	return c11CheckPackage(pkg, i.defs, i.stage())
+	out := c11CheckPackage(pkg, i.defs, i.stage())
+	if i.base != nil {
+		// the template's base document keeps the definitions it had when it was rendered, whatever was
+		// called on the rendered document since; and a second render from the same engine carries them too
+		if bp, _, errB := saveRead(i.base); errB != "" {
+			out = append(out, rep.Violation{Sig: "save-failed|template-base", Clause: "save", What: errB})
+		} else {
+			out = append(out, c11CheckPackage(bp, i.baseDefs, "template-base-after-calls-on-the-rendered-document")...)
+		}
+		var d2 *document.Document
+		var e2 error
+		if p := guard(func() { d2, e2 = i.eng.RenderTemplateToDocument("t", document.NewTemplateData()) }); p != "" || e2 != nil || d2 == nil {
+			out = append(out, rep.Violation{Sig: "template-render-failed|second", Clause: "render", What: fmt.Sprint(p, e2)})
+		} else if rp, _, errR := saveRead(d2); errR != "" {
+			out = append(out, rep.Violation{Sig: "save-failed|second-render", Clause: "save", What: errR})
+		} else {
+			out = append(out, c11CheckPackage(rp, i.baseDefs, "second-render-after-calls-on-the-first")...)
+		}
+	}
+	return out
 }
 
 func (i *c11Inst) stage() string {
@@ -395,7 +438,7 @@ func runC11(r *rep.Run) {
 	if r.Tier == "thorough" {
 		depth = 4
 	}
-	r.Rule = "BFS over histories of the six header/footer calls x three kinds x distinct texts/formats, interleaved with page margins, title page, image, list, paragraph, reopen and render-as-template, on a real Document with a map (header|footer, kind) -> latest definition; every distinct state is saved and evaluated with the independent reader: at most one reference per kind, exactly one for each defined kind, resolving through word/_rels/document.xml.rels to a header/footer part that carries the latest call's text, run formatting, alignment and PAGE field and no earlier call's text; non-trivial = a header/footer call, reopen or render"
+	r.Rule = "BFS over histories of the six header/footer calls x three kinds x distinct texts/formats, interleaved with page margins, title page, image, list, paragraph, reopen and render-as-template, on a real Document with a map (header|footer, kind) -> latest definition; every distinct state is saved and evaluated with the independent reader: at most one reference per kind, exactly one for each defined kind, resolving through word/_rels/document.xml.rels to a header/footer part that carries the latest call's text, run formatting, alignment and PAGE field and no earlier call's text; after render-as-template the history continues on the rendered document while the template's base document and a second render from the same engine are saved at every state and must still carry the definitions the base had when it was rendered; non-trivial = a header/footer call, reopen or render"
 	r.Bounds["depth"] = depth
 	r.Bounds["alphabet"] = len(c11Ops)
 	r.Assume = []string{"texts are distinct single letters so that a stale definition is recognisable by its text"}
